@@ -192,6 +192,7 @@ func TestTrace(t *testing.T) {
 		groups[k] = append(groups[k], i)
 	}
 	reached, unreached := 0, 0
+	reloadAccepted, reloadRefused := 0, 0
 	var samples []any
 	classes := map[string]int{}
 	for k, idxs := range groups {
@@ -224,6 +225,23 @@ func TestTrace(t *testing.T) {
 		}
 		if k.backend {
 			r.P.SetBackendHandshakeAddresser(backendHook{})
+		}
+		// Premise of the check: forwarding mode and secrets cannot change while players are online
+		// (restart-required settings). Probe the proxy's live-reload entry point with both changes.
+		for _, change := range []func(c *config.Config){
+			func(c *config.Config) { c.Forwarding.BungeeGuardSecret = "rotated-secret" },
+			func(c *config.Config) {
+				c.Forwarding.Mode = config.LegacyForwardingMode
+				c.Forwarding.VelocitySecret = "x"
+			},
+		} {
+			cand := *r.Cfg
+			change(&cand)
+			if err := r.P.ApplyLiveConfig(&cand); err == nil {
+				reloadAccepted++
+			} else {
+				reloadRefused++
+			}
 		}
 		var wg sync.WaitGroup
 		sem := make(chan struct{}, 16)
@@ -344,5 +362,5 @@ func TestTrace(t *testing.T) {
 		t.Fatal(err)
 	}
 	tracefmt.WriteJSON("stats.json", map[string]any{"cases": len(scens), "reached": reached, "unreached": unreached,
-		"classes": classes, "samples": samples})
+		"classes": classes, "samples": samples, "reload_accepted": reloadAccepted, "reload_refused": reloadRefused})
 }
